@@ -11,8 +11,31 @@ fn bytes(x: f80) -> String {
     format!("{:04x}:{:016x}", se, sig)
 }
 
+fn raw(se: u16, sig: u64) -> f80 {
+    let mut b = [0u8; 16];
+    b[..8].copy_from_slice(&sig.to_le_bytes());
+    b[8..10].copy_from_slice(&se.to_le_bytes());
+    unsafe { std::mem::transmute(b) }
+}
+
+/// `raw <se_hex> <sig_hex> <se_hex> <sig_hex>`: operands given as 80-bit patterns (values that need all 64 significand bits)
+fn raw_main(args: &[String]) {
+    let p = |i: usize| (u16::from_str_radix(&args[i], 16).unwrap(), u64::from_str_radix(&args[i + 1], 16).unwrap());
+    let ((sa, ga), (sb, gb)) = (p(0), p(2));
+    let (a, b) = (raw(sa, ga), raw(sb, gb));
+    let pc = match a.partial_cmp(&b) { None => "None", Some(Ordering::Less) => "Less", Some(Ordering::Equal) => "Equal", Some(Ordering::Greater) => "Greater" };
+    println!(
+        "lt={};gt={};le={};ge={};eq={};ne={};pcmp={};min={};max={};abs={};neg={};nar={:016x}",
+        a < b, a > b, a <= b, a >= b, a == b, a != b, pc, bytes(a.min(b)), bytes(a.max(b)), bytes(a.abs()), bytes(-a), f64::from(a).to_bits()
+    );
+}
+
 fn main() {
     let args: Vec<String> = std::env::args().skip(1).collect();
+    if !args.is_empty() && args[0] == "raw" {
+        raw_main(&args[1..]);
+        return;
+    }
     let mut i = 0;
     while i + 1 < args.len() {
         let a64 = f64::from_bits(u64::from_str_radix(&args[i], 16).unwrap());
